@@ -360,27 +360,46 @@ func c13Chart(c *Ctx, gd *Module) {
 		appends = append(appends, cs.(*ssa.Call))
 	}
 	toReports, toXs := false, false
+	nList := 0
+	listBases := map[string]bool{}
+	var others []*ssa.Call
 	for _, a := range appends {
-		_, el, ok := appendedElems(a)
+		base, el, ok := appendedElems(a)
 		if !ok || len(el) != 1 {
+			others = append(others, a)
 			continue
 		}
 		d := describe(el[0])
+		hit := false
 		if strings.Contains(d, "readMergedReports(") && strings.HasSuffix(d, "]") {
-			toReports = true
+			toReports, hit = true, true
 		}
 		if strings.Contains(d, "readMergedReports(") && strings.HasSuffix(d, "].X") {
-			toXs = true
+			toXs, hit = true, true
 		}
 		// alloc copy forms
 		if strings.HasPrefix(d, "alloc:r#") || strings.HasPrefix(d, "*alloc:r#") {
-			toReports = true
+			toReports, hit = true, true
 		}
 		if strings.HasSuffix(d, ".X") {
-			toXs = true
+			toXs, hit = true, true
+		}
+		if hit {
+			nList++
+			listBases[describe(base)] = true
+		} else {
+			others = append(others, a)
 		}
 	}
-	r.Check("C13.every-report-counted", "handleChart/every report is both grouped and counted", gd.Pos(h.Pos()), toReports && toXs && len(appends) == 2, fmt.Sprintf("appends: %d (reports:%v ids:%v)", len(appends), toReports, toXs))
+	// appends to other slices (a diagnostic list, say) are none of this rule's business; a further
+	// append to one of the two lists is
+	extra := 0
+	for _, a := range others {
+		if base, _, ok := appendedElems(a); ok && listBases[describe(base)] {
+			extra++
+		}
+	}
+	r.Check("C13.every-report-counted", "handleChart/every report is both grouped and counted", gd.Pos(h.Pos()), toReports && toXs && nList == 2 && extra == 0, fmt.Sprintf("appends to the two lists: %d, further appends to them: %d (reports:%v ids:%v)", nList, extra, toReports, toXs))
 	// same inner loop for both
 	if len(appends) == 2 {
 		same := appends[0].Block() == appends[1].Block()
